@@ -586,11 +586,9 @@ func (c *BackendConn) handlePrepare(raw []byte, frm *frame.Frame, msg *message.P
 		n.Prepared[hex.EncodeToString(id)] = msg.Query
 		w.Stat("backend.prepare")
 		res := &message.PreparedResult{
-			PreparedQueryId: id,
-			VariablesMetadata: &message.VariablesMetadata{
-				Columns: []*message.ColumnMetadata{col("ks", "t", "v", datatype.Varchar)},
-			},
-			ResultMetadata: &message.RowsMetadata{ColumnCount: 1, Columns: []*message.ColumnMetadata{col("ks", "t", "tok", datatype.Varchar)}},
+			PreparedQueryId:   id,
+			VariablesMetadata: &message.VariablesMetadata{Columns: bindVariables(msg.Query)},
+			ResultMetadata:    &message.RowsMetadata{ColumnCount: 1, Columns: []*message.ColumnMetadata{col("ks", "t", "tok", datatype.Varchar)}},
 		}
 		if c.Version.SupportsResultMetadataId() {
 			rid := md5.Sum([]byte("rm" + msg.Query))
@@ -981,4 +979,31 @@ func (n *Node) LiveConns() []*BackendConn {
 		}
 	}
 	return out
+}
+
+// bindVariables describes the bind markers of a statement the way a node does: one column per
+// marker, typed by its position (the index of a list element is an int named idx(l), the operand
+// of l = l + ? has the list's type, of c = c + ? the counter's, anything else is text).
+func bindVariables(query string) []*message.ColumnMetadata {
+	var cols []*message.ColumnMetadata
+	for i := 0; i < len(query); i++ {
+		if query[i] != '?' {
+			continue
+		}
+		before := strings.TrimRight(query[:i], " ")
+		switch {
+		case strings.HasSuffix(before, "l["):
+			cols = append(cols, col("ks", "t", "idx(l)", datatype.Int))
+		case strings.HasSuffix(before, "l +"):
+			cols = append(cols, col("ks", "t", "l", datatype.NewList(datatype.Int)))
+		case strings.HasSuffix(before, "c +"):
+			cols = append(cols, col("ks", "t", "c", datatype.Counter))
+		default:
+			cols = append(cols, col("ks", "t", "v", datatype.Varchar))
+		}
+	}
+	if len(cols) == 0 {
+		cols = append(cols, col("ks", "t", "v", datatype.Varchar))
+	}
+	return cols
 }
